@@ -543,6 +543,21 @@ def symlink_prog():
     }
 
 
+def ifcreate_link():
+    """the watched path is a symbolic link that dangles at first: it does not exist for redo-ifcreate, [ -e ] and the
+    created-mode edge until what it points to is created (lstat finds the link itself all the time)"""
+    return {
+        'name': 'ifcreate_link',
+        'plain': ['s', 'px', 'x', 't'],
+        'links': {'x': ['px']},
+        'rules': {'t.do': [{'t': [ifchange('s'), {'op': 'watch', 'args': ['x'], 'ch': '', 'rc': 0}, out('stdout', 's', 'x')]}]},
+        'init': ['s', 'x', 't.do'],
+        'cmds': [('ifchange', ['t'], False)],
+        'user': ['px'], 'rm': ['px'], 'doedits': [],
+        'bounds': (6, 4),
+    }
+
+
 def symlink_stamped():
     """a checksummed target that reads through a symbolic link, under a plain dependent"""
     return {
@@ -728,7 +743,7 @@ def crash_family(window=False, stamp_window=False):
     return out_
 
 
-FAMILY_DEEP = [fail_kinds, symlink_prog, symlink_stamped, nodir_prog, always2, fail_diamond, override2, stamp_toggle, stamped_deep, ifcreate_deep, do_recreate, subdirs, fan_shared, fail_memo]
+FAMILY_DEEP = [fail_kinds, ifcreate_link, symlink_prog, symlink_stamped, nodir_prog, always2, fail_diamond, override2, stamp_toggle, stamped_deep, ifcreate_deep, do_recreate, subdirs, fan_shared, fail_memo]
 
 
 def deep_programs():
